@@ -119,6 +119,8 @@ def build():
     any_anc.rule("any_anc-concat", 1, "concat", "lemma")(lambda a, p: z3.Or(any_anc.t(a[0], p[0], a[2]), any_anc.t(a[0], p[1], a[2])))
     sf["MX"] = MX
     sf["any_anc"] = any_anc
+    world.vocab = getattr(world, "vocab", {})
+    world.vocab.update(dict(MX=MX, any_anc=any_anc, TREE=TREE, tparent=tparent, tfield=tfield, tindex=tindex, tchain=tchain, intree=intree, elem_ok=elem_ok))
     chain_members = "all_in_tree(tree, t_chain(tree, node))"
     allin = lib.fn("all_in_tree", [TREE, SR], BOOL)
     allin.rule("all_in_tree-empty", 1, "empty")(lambda a, p: z3.BoolVal(True))
@@ -374,6 +376,10 @@ def find_all_body(world, lib, reg, nv, EL, NI, XP, elem_ok):
                       4: Loop(inv=["new_work == add_matching_children(new_work_at4, done4, n_info.node, el, dummy_root)", "seq4 == kids(n_info.node)"])},
                note="the nodes of the positions selected by the top-down semantics TD over the path's steps, in first-insertion order, each position once"))
     reg.contracts[f"{XM_}:ASTXpath.findall#body"].fn = f"{XM_}:ASTXpath.findall"
+    # vocabulary for the agreement lemmas (contracts.xpath_agree)
+    world.vocab = getattr(world, "vocab", {})
+    world.vocab.update(dict(A1=A1, A2=A2, ST=ST, TD=TD, desc=desc, mkx=mkx, g=g, rootx=rootx, to_x=to_x, adj=adj, ok=ok, child_x=child_x, addif=addif,
+                            SX=SX, SI=SI, SC=SC, SE=SE, SR=SR, NI=NI, EL=EL, INFO=INFO, CPOS=CPOS, OREF=OREF, OFLD=OFLD, OINT=OINT, nodes_of=nodes_of))
 
 
 def legacy_matcher(world, lib, reg, nv):
